@@ -3,13 +3,13 @@
   constants in their positions.
 
   Model: `Engine.run` (ILV.Model.Engine), every configuration without a row limit (any worker
-  count, any partitioner). The statement is proved for every program on which the model is
-  defined. The model is *not* defined (`err:fragment`) on programs in which a recursive clause has
-  an aggregate head (`Drv.C07.recursiveMinMaxHead`): there the code takes the min/max
-  "aggregation in loop" path (code_generator:1039-1187) whose loop variable carries tuples of the
-  clause *body's* arity — the real engine returns tuples of length 3 and 6 mixed for the
-  shortest-path program (known finding `recursive_minmax_head`, found by the Spec search of this
-  property, replayed from replays/known/). That path is excluded here by name, not silently.
+  count, any partitioner), including the recursive min/max "aggregation in loop" path
+  (code_generator:1039-1187) as repaired by fixes/C07-recursive_minmax_head.diff: the recursive
+  body is projected onto the head columns before it is concatenated with the base case. Before
+  the repair the loop variable carried tuples of the clause *body's* arity and the answer of the
+  shortest-path program mixed tuples of length 3 and 6 (old finding `recursive_minmax_head`,
+  witness kept in corpus/C07/). Other aggregates inside a recursive clause are outside the model
+  (`err:fragment`): the statement is about every run on which the model answers.
 -/
 import ILV.Lemmas.WellFormed
 import ILV.Drv.C07
@@ -38,7 +38,7 @@ theorem C07_partial (cfg : Cfg) (hlim : cfg.limit = 0) (hash : Tuple → Nat) (o
     (fun g ts hg => by cases hg) (run_loop _ _ _ _ _ _ _ _ hrun)
   exact this.2
 
-/-- the model refuses exactly the min/max-in-loop programs of the generator's templates. -/
+/-- the former counterexample: shortest paths by recursive `min`. -/
 def shortestPath : Program := [
   { hrel := "a", hargs := [.var "X", .var "Y", .agg .min "D"], body := [.pos ⟨"w", [.var "X", .var "Y", .var "D"]⟩] },
   { hrel := "a", hargs := [.var "X", .var "Z", .agg .min "D"],
@@ -46,8 +46,13 @@ def shortestPath : Program := [
              .cmp .eq (.var "D") (.bin .add (.var "U") (.var "V"))] },
   { hrel := "q", hargs := [.var "X", .var "Y", .var "D"], body := [.pos ⟨"a", [.var "X", .var "Y", .var "D"]⟩] } ]
 
+/-- it runs through the aggregation-in-loop path and every answer tuple has the head's arity 3.
+    (The superseded tuple `(1,3,9)` stays in the answer next to `(1,3,6)`: the capture keeps
+    retracted records — outside C07's statement, see notes/C07.md.) -/
 example : Drv.C07.recursiveMinMaxHead shortestPath = true ∧
-    Engine.run {} (fun _ => 0) (fun _ ts => ts) 8 shortestPath [("w", [[.i64 1, .i64 2, .i64 5]])] = .err "err:fragment" := by
+    (Engine.run {} (fun _ => 0) (fun _ ts => ts) 8 shortestPath
+      [("w", [[.i64 1, .i64 2, .i64 5], [.i64 2, .i64 3, .i64 1], [.i64 1, .i64 3, .i64 9]])]).toWire
+      = "i64:1,i64:2,i64:5;i64:1,i64:3,i64:6;i64:1,i64:3,i64:9;i64:2,i64:3,i64:1" := by
   decide
 
 /-- a head with a constant, an aggregate head and a self-recursive head; 2 workers. The
